@@ -398,7 +398,9 @@ def run_check(prop, module, tier, seed):
             if hasattr(module, "oracle_only"):
                 module.oracle_only(ctx)
         tie_broken = bool(ctx.broken or ctx.disagreements)
-        if tie_broken and not ctx.violations and hasattr(module, "search"):
+        known_keys = {k["key"] for k in known}
+        # a listed known finding is not the failing input of a *broken tie*: the search still has to run
+        if tie_broken and not [v for v in ctx.violations if v["key"] not in known_keys] and hasattr(module, "search"):
             try:
                 module.search(ctx)
             except (subprocess.TimeoutExpired, KeyboardInterrupt):
